@@ -84,6 +84,34 @@ func newWorld() *world {
 // checked certificate, names its sibling (else: a serial of nobody here).
 func isSib(e refmodel.CRLEntry, i int) bool { return !e.Match && i%2 == 1 }
 
+// fracST says whether the case supplies a signing time with a sub-second part
+// (0.6 s past the usual instant); "after" invalidity dates of entries with
+// revocation-time rank 2 then lie 0.4 s after it, "equal" ones 0.6 s before.
+func fracST(c Case) bool { return c.WithST && (len(c.Base)+2*len(c.Delta))%3 == 1 }
+
+func stOf(c Case) time.Time {
+	if !c.WithST {
+		return time.Time{}
+	}
+	if fracST(c) {
+		return sims.SigningTime.Add(600 * time.Millisecond)
+	}
+	return sims.SigningTime
+}
+
+func (w *world) entriesFor(c Case, es []refmodel.CRLEntry) []pki.CRLEntry {
+	out := w.entries(es)
+	if fracST(c) {
+		for i, e := range es {
+			if e.Inv == "after" && e.T == 2 {
+				t := sims.SigningTime.Add(time.Second) // the next full second: 0.4 s after the signing time
+				out[i].Invalidity = &t
+			}
+		}
+	}
+	return out
+}
+
 func (w *world) entries(es []refmodel.CRLEntry) []pki.CRLEntry {
 	var out []pki.CRLEntry
 	for i, e := range es {
@@ -125,10 +153,19 @@ func (w *world) exec(c Case) (got string, detail string, p *core.PanicInfo) {
 // exec2 checks the certificate and its sibling against the SAME bundle object,
 // one after the other (which one first depends on the case).
 func (w *world) exec2(c Case) (got, gotSib string, detail string, p *core.PanicInfo) {
-	base := &pki.CRL{IssuerRawName: w.kit.Issuer.RawSubject, SignKey: w.kit.IKey, NextUpdate: pki.Future, Number: big.NewInt(100), Entries: w.entries(c.Base)}
+	// every other case reaches the CRL through the OCSP fallback: the certificate
+	// also names a responder, which cannot be reached (another certificate of the
+	// family, with a serial number of its own)
+	shape := sims.HTTPShape(0, 1)
+	if (len(c.Base)+len(c.Delta))%2 == 1 {
+		shape = sims.HTTPShape(1, 1)
+	}
+	chain := w.fam.Chain([]sims.Shape{shape, {}})
+	w = &world{fam: w.fam, kit: w.kit, url: w.url, sib: w.sib, cert: chain[0].SerialNumber}
+	base := &pki.CRL{IssuerRawName: w.kit.Issuer.RawSubject, SignKey: w.kit.IKey, NextUpdate: pki.Future, Number: big.NewInt(100), Entries: w.entriesFor(c, c.Base)}
 	b := &crl.Bundle{BaseCRL: pki.MustParseCRL(pki.BuildCRL(base))}
 	if c.HasDelta {
-		delta := &pki.CRL{IssuerRawName: w.kit.Issuer.RawSubject, SignKey: w.kit.IKey, NextUpdate: pki.Future, Number: big.NewInt(101), DeltaInd: big.NewInt(100), Entries: w.entries(c.Delta)}
+		delta := &pki.CRL{IssuerRawName: w.kit.Issuer.RawSubject, SignKey: w.kit.IKey, NextUpdate: pki.Future, Number: big.NewInt(101), DeltaInd: big.NewInt(100), Entries: w.entriesFor(c, c.Delta)}
 		b.DeltaCRL = pki.MustParseCRL(pki.BuildCRL(delta))
 	}
 	ft := sims.NewFetcher()
@@ -137,11 +174,7 @@ func (w *world) exec2(c Case) (got, gotSib string, detail string, p *core.PanicI
 	if err != nil {
 		return "", "", "NewWithOptions: " + err.Error(), nil
 	}
-	var st time.Time
-	if c.WithST {
-		st = sims.SigningTime
-	}
-	chain := w.fam.Chain([]sims.Shape{sims.HTTPShape(0, 1), {}})
+	st := stOf(c)
 	sibChain := []*x509.Certificate{w.sib, chain[1]}
 	one := func(ch []*x509.Certificate, out *string) {
 		rs, err := v.ValidateContext(context.Background(), revocation.ValidateContextOptions{CertChain: ch, AuthenticSigningTime: st})
